@@ -342,6 +342,70 @@ fn check_loop(n: u32) -> Option<(String, String)> {
     None
 }
 
+/// `while iterations < n { scope { while iterations < m { inner } }; outer }`: the inner loop owns a
+/// counter of its own in its scope, so the outer loop makes exactly n passes and the inner one m per pass
+fn check_nested_loop(n: u32, m: u32, scoped: bool) -> Option<(String, String)> {
+    let outer = Arc::new(Mutex::new(LoopLog::default()));
+    let inner = Arc::new(Mutex::new(LoopLog::default()));
+    let ocond: Box<dyn Condition<TagP>> = Box::new(WrapCond { inner: LessThanN::iterations(n), log: outer.clone() });
+    let icond: Box<dyn Condition<TagP>> = Box::new(WrapCond { inner: LessThanN::iterations(m), log: inner.clone() });
+    let obody: Box<dyn Component<TagP>> = Box::new(CountBody { log: outer.clone() });
+    let ibody: Box<dyn Component<TagP>> = Box::new(CountBody { log: inner.clone() });
+    let config = if scoped {
+        Configuration::<TagP>::builder().while_(ocond, |b| b.scope_(|b| b.while_(icond, |b| b.do_(ibody))).do_(obody)).build()
+    } else {
+        // a loop in a scope of its own after another loop starts counting at zero as well
+        Configuration::<TagP>::builder().while_(ocond, |b| b.do_(obody)).scope_(|b| b.while_(icond, |b| b.do_(ibody))).build()
+    };
+    let r = catch(|| {
+        config.optimize_with(&TagP, |st| {
+            st.insert(crate::engine::tape::scripted_random(0));
+            st.insert(crate::subject::templates::horizon_observer::<TagP>(20_000));
+            Ok(())
+        })
+    });
+    let shape = if scoped { "nested-in-scope" } else { "consecutive-second-in-scope" };
+    let ctx = |w: String| format!("{} loops with LessThanN::iterations({}) (outer/first) and LessThanN::iterations({}) (inner/second): {}", shape, n, m, w);
+    let head = format!("C10 loop {}", shape);
+    match r {
+        Err(p) if p.contains("verif horizon") => return Some((format!("{} does-not-terminate", head), ctx(p))),
+        Err(p) => return Some((format!("{} panic", head), ctx(format!("panicked: {}", p)))),
+        Ok(Err(e)) => return Some((format!("{} error", head), ctx(format!("returned Err: {:#}", e)))),
+        Ok(Ok(_)) => {}
+    };
+    let (o, i) = (outer.lock().unwrap(), inner.lock().unwrap());
+    let (ip, it) = if scoped { (n * m, n * (m + 1)) } else { (m, m + 1) };
+    if o.passes != n || o.tests != n + 1 || i.passes != ip || i.tests != it {
+        return Some((
+            format!("{} pass-count", head),
+            ctx(format!("outer/first loop: {} passes, {} tests (expected {} and {}); inner/second loop: {} passes, {} tests (expected {} and {})", o.passes, o.tests, n, n + 1, i.passes, i.tests, ip, it)),
+        ));
+    }
+    if o.iterations_seen != (0..=n).collect::<Vec<_>>() {
+        return Some((format!("{} counter-sequence", head), ctx(format!("iteration counter seen by the outer/first loop's tests: {:?}", o.iterations_seen))));
+    }
+    None
+}
+
+fn check_less_than_signed(n2: i32, v2: i32) -> Option<(String, String)> {
+    let (n, v) = (n2 as f64 * 0.5, v2 as f64 * 0.5);
+    let mut st = state_with::<TagP>(vec![]);
+    st.insert(Temperature(v));
+    let c = LessThanN::new::<TagP>(n, ValueOf::<Temperature>::new());
+    let r = eval_cond(c.as_ref(), &TagP, &mut st);
+    let head = "C10 LessThanN lens=f64-lens-signed";
+    let ctx = |w: String| format!("LessThanN(n = {:?}) on value {:?} (f64 lens): {}", n, v, w);
+    match r {
+        Err(e) => Some((format!("{} failure", head), ctx(e))),
+        Ok(b) => {
+            if b != (v < n) {
+                return Some((format!("{} {}", head, if v == n { "value=n" } else { "value!=n" }), ctx(format!("evaluated to {}", b))));
+            }
+            None
+        }
+    }
+}
+
 // ---------------------------------------------------------------------------------------------
 // stateless conditions on prepared states
 // ---------------------------------------------------------------------------------------------
@@ -510,12 +574,11 @@ fn check_change_of(checker: u8, hist: &[u32]) -> Option<(String, String)> {
 }
 
 fn check_random_chance(p: f64, seed: u64) -> Vec<(String, String, Value)> {
-    let th = if p >= 1.0 { u64::MAX } else { (p * 18446744073709551616.0) as u64 };
-    let mut words = vec![0u64, u64::MAX, 1u64 << 63, 1u64 << 62, 3u64 << 62];
-    if th > 0 {
-        words.push(th - 1);
-    }
-    words.push(th);
+    // the firing set must have measure p: sweep the decisive generator word over an evenly spaced grid
+    let grid = 256u64;
+    let mut words: Vec<u64> = (0..grid).map(|k| (k << 56) | 0x00AB_CDEF_0123_4567 & ((1u64 << 56) - 1)).collect();
+    words.push(0);
+    words.push(u64::MAX);
     let cfg = Cfg::prefix(&words, 1, seed);
     let body = || {
         let mut st = state_with::<TagP>(vec![]);
@@ -523,35 +586,48 @@ fn check_random_chance(p: f64, seed: u64) -> Vec<(String, String, Value)> {
         eval_cond(c.as_ref(), &TagP, &mut st)
     };
     let mut out = vec![];
-    tape::explore(&cfg, &body, &mut |prefix, o, log| {
-        let head = format!("C10 RandomChance p={}", p);
-        match o {
-            Outcome::Done(Ok(b)) => {
-                let exp = match log.words.first() {
-                    Some(w) => p >= 1.0 || (*w < th),
-                    None => p >= 1.0,
-                };
-                let decided = log.words.first().is_some() || p >= 1.0 || p <= 0.0;
-                if log.words.is_empty() && p > 0.0 && p < 1.0 {
-                    out.push((format!("{} no-randomness", head), format!("RandomChance({}) decided {} without drawing from the generator", p, b), json!({"chance": p, "tape": prefix})));
-                } else if decided && *b != exp {
-                    out.push((format!("{} {}", head, if *b { "fired-outside-probability" } else { "missed-inside-probability" }), format!("RandomChance({}) with generator word {:?} evaluated to {}; the firing set of measure p is word < p * 2^64 = {}", p, log.words.first(), b, th), json!({"chance": p, "tape": prefix})));
-                }
+    let (mut fired, mut total, mut undrawn_fire, mut undrawn) = (0u64, 0u64, 0u64, 0u64);
+    let head = format!("C10 RandomChance p={}", p);
+    tape::explore(&cfg, &body, &mut |prefix, o, log| match o {
+        Outcome::Done(Ok(b)) => {
+            if log.words.is_empty() {
+                undrawn += 1;
+                undrawn_fire += *b as u64;
+            } else if prefix.len() == 1 && (prefix[0] as u64) <= grid {
+                total += 1;
+                fired += *b as u64;
             }
-            Outcome::Done(Err(e)) => out.push((format!("{} failure", head), e.clone(), json!({"chance": p, "tape": prefix}))),
-            Outcome::Panic(m) => out.push((format!("{} panic", head), m.clone(), json!({"chance": p, "tape": prefix}))),
-            _ => {}
         }
+        Outcome::Done(Err(e)) => out.push((format!("{} failure", head), e.clone(), json!({"chance": p, "tape": prefix}))),
+        Outcome::Panic(m) => out.push((format!("{} panic", head), m.clone(), json!({"chance": p, "tape": prefix}))),
+        _ => {}
     });
+    if total > 0 {
+        let share = fired as f64 / total as f64;
+        if (share - p).abs() > 2.0 / grid as f64 {
+            out.push((
+                format!("{} {}", head, if share > p { "fires-too-often" } else { "fires-too-rarely" }),
+                format!("RandomChance({}) fires for {} of {} evenly spaced generator words ({}), the configured probability is {}", p, fired, total, share, p),
+                json!({"chance": p, "tape": []}),
+            ));
+        }
+    } else if undrawn > 0 {
+        // decided without randomness: only legitimate for p = 0 or p = 1
+        let always = undrawn_fire == undrawn;
+        let never = undrawn_fire == 0;
+        if !((p >= 1.0 && always) || (p <= 0.0 && never)) {
+            out.push((format!("{} no-randomness", head), format!("RandomChance({}) decided without drawing from the generator (fired {} of {} times)", p, undrawn_fire, undrawn), json!({"chance": p, "tape": []})));
+        }
+    }
     out
 }
 
 pub fn run(rep: &mut Report) {
     let thorough = rep.tier == Tier::Thorough;
-    rep.alpha("LessThanN over iterations / evaluations / an f64 lens: n in 0..6 x value in 0..8; loops `while LessThanN::iterations(n)` with counting body and wrapped condition, n in 0..5");
+    rep.alpha("LessThanN over iterations / evaluations / an f64 lens: n in 0..6 x value in 0..8, and over the f64 lens with n in {-2,-1.5,..,2} x value in {-3,-2.5,..,3}; loops `while LessThanN::iterations(n)` with counting body and wrapped condition, n in 0..5; two such loops, the second nested in the first through a scope or following it in a scope of its own, n, m in 0..4");
     rep.alpha("EveryN: n in 1..6 x value in 0..13; OptimumReached: epsilon in {0,1e-9,1/2} x best in {none, opt, opt+eps, next double above opt+eps, opt+1, +inf}, negative epsilon at construction");
     rep.alpha("ChangeOf: all value histories of length <= 5 (quick) / 6 (thorough) over {0,1,2} with PartialEqChecker and over {0..4} with DeltaEqChecker(0|1|2)");
-    rep.alpha("RandomChance(p), p in {0,1/4,1/2,3/4,1}: generator words {0, p*2^64-1, p*2^64, 2^64-1, quartiles}");
+    rep.alpha("RandomChance(p), p in {0,1/4,1/2,3/4,1}: the decisive generator word swept over 256 evenly spaced values, 0 and 2^64-1; the share of firing words must be p (+- 2/256)");
     rep.alpha("And / Or / Not and the operators & | !: all formulas of depth <= 2 and arity <= 2 (quick) / 3 (thorough) over scripted operands, all truth assignments, every single failing operand");
     rep.assume("best values below the known optimum are outside the alphabet (a known optimum is a lower bound)");
     let seed = rep.seed;
@@ -577,6 +653,30 @@ pub fn run(rep: &mut Report) {
         p.outcome(format!("loop:{}", n));
         if let Some((s, d)) = check_loop(n) {
             p.violate(s, d, json!({"kind": "loop", "n": n}));
+        }
+    }
+    for n2 in -4..=4i32 {
+        for v2 in -6..=6i32 {
+            p.transitions += 1;
+            p.traces += 1;
+            p.states += 1;
+            p.outcome(format!("{}", v2 < n2));
+            if let Some((s, d)) = check_less_than_signed(n2, v2) {
+                p.violate(s, d, json!({"kind": "less-signed", "n": n2, "v": v2}));
+            }
+        }
+    }
+    for n in 0..=4u32 {
+        for m in 0..=4u32 {
+            for scoped in [true, false] {
+                p.transitions += (2 * n + 1) as u64 + if scoped { (n * (2 * m + 1)) as u64 } else { (2 * m + 1) as u64 };
+                p.traces += 1;
+                p.states += 1;
+                p.outcome(format!("nested:{}", scoped));
+                if let Some((s, d)) = check_nested_loop(n, m, scoped) {
+                    p.violate(s, d, json!({"kind": "nested-loop", "n": n, "m": m, "scoped": scoped}));
+                }
+            }
         }
     }
     p.sample(json!({"loop": "while iterations < 3 { body }", "expected": "3 passes, 4 tests, progress 0, 1/3, 2/3, 1"}));
@@ -648,8 +748,8 @@ pub fn run(rep: &mut Report) {
     let mut p = Part::new("random-chance.word-threshold");
     for pr in [0.0, 0.25, 0.5, 0.75, 1.0] {
         let v = check_random_chance(pr, seed);
-        p.transitions += 8;
-        p.traces += 8;
+        p.transitions += 258;
+        p.traces += 258;
         p.states += 1;
         p.outcome(format!("p={}", pr));
         for (s, d, r) in v {
@@ -659,7 +759,7 @@ pub fn run(rep: &mut Report) {
             p.violate(s, d, r);
         }
     }
-    p.sample(json!({"RandomChance": 0.25, "fires_iff": "word < 2^62"}));
+    p.sample(json!({"RandomChance": 0.25, "expected": "64 of 256 evenly spaced words fire"}));
     rep.push(p);
 
     let mut p = Part::new("logical.formulas");
@@ -711,6 +811,8 @@ pub fn replay(case: &Value) -> Result<Vec<(String, String)>, String> {
     Ok(match case["kind"].as_str().unwrap_or("") {
         "less" => check_less_than(u("lens") as u8, u("n") as u32, u("v") as u32).into_iter().collect(),
         "loop" => check_loop(u("n") as u32).into_iter().collect(),
+        "nested-loop" => check_nested_loop(u("n") as u32, u("m") as u32, case["scoped"].as_bool().unwrap_or(true)).into_iter().collect(),
+        "less-signed" => check_less_than_signed(case["n"].as_i64().unwrap_or(0) as i32, case["v"].as_i64().unwrap_or(0) as i32).into_iter().collect(),
         "every" => check_every_n(u("n") as u32, u("v") as u32).into_iter().collect(),
         "optimum" => check_optimum(case["eps"].as_f64().unwrap_or(0.0), u("which") as u8).into_iter().collect(),
         "optimum-neg" => {
